@@ -276,6 +276,11 @@ def main(pid, tier):
         ck.phase("tsan")
     race_runs(ck, drv, tier)
     ck.phase("race_outcomes")
+    # "each thread's ... metadata contain exactly what that thread ... set": the attribute API
+    # (spec/RtAttr.tla), single- and multi-threaded call sequences replayed on libovni
+    from checks import rtattr
+    rtattr.run(ck, tier, bdir)
+    ck.phase("attributes")
     ck.assumptions += ["interleavings are forced at API-call and hook-point granularity; finer interleavings inside a "
                        "step are only exercised by the free-running TSan runs",
                        "a CAS replaced by separate atomic load and store is not flagged by TSan and cannot be forced "
